@@ -23,6 +23,20 @@ impl Stack {
         }
     }
 
+    #[cfg(tera_verif)]
+    pub(crate) fn verif_len(&self) -> usize {
+        self.values.len()
+    }
+
+    /// (kind, truthy, safe, span lo, span hi) of the top of the stack
+    #[cfg(tera_verif)]
+    pub(crate) fn verif_top(&self) -> (&'static str, bool, bool, u32, u32) {
+        match self.values.last() {
+            None => ("empty", false, false, 0, 0),
+            Some((v, r)) => (v.name(), v.is_truthy(), v.is_safe(), *r.start(), *r.end()),
+        }
+    }
+
     #[inline]
     pub(crate) fn push(&mut self, val: Value, span: SpanRange) {
         self.values.push((val, span));
